@@ -941,7 +941,11 @@ class Evaluator:
                 if k is None:
                     if cur:
                         d.layers.append(cur); cur = {}
-                    d.layers.append(self.expr(v, env, fr))
+                    sub = self.expr(v, env, fr)
+                    if isinstance(sub, DictV):
+                        d.layers += sub.copy().layers
+                    else:
+                        d.layers.append(sub)
                 else:
                     kk = self.expr(k, env, fr)
                     if not isinstance(kk, Const):
@@ -1197,6 +1201,12 @@ class Evaluator:
                     return sp.floor(a / b)
             except Exception as exc:  # pragma: no cover
                 return Unknown(f'arithmetic: {exc}')
+        if isinstance(op, (ast.Add, ast.Sub)) and is_num(b) and b == 0 and isinstance(a, App):
+            return a
+        if isinstance(op, ast.Add) and is_num(a) and a == 0 and isinstance(b, App):
+            return b
+        if isinstance(op, (ast.Mult, ast.Div)) and is_num(b) and b == 1 and isinstance(a, App):
+            return a
         if isinstance(a, Ite) or isinstance(b, Ite):
             if isinstance(a, Ite):
                 return mk_ite(a.cond, self.binop(op, a.a, b), self.binop(op, a.b, b))
@@ -1650,6 +1660,10 @@ def _fold_isinstance(model, v, t):
         return any((k == 'ext' and c == 'dict') for k, c in names) or None
     if isinstance(v, Const) and isinstance(v.v, str):
         return any(k == 'ext' and c == 'str' for k, c in names)
+    if isinstance(v, Const) and v.v is None:
+        return False
+    if isinstance(v, Tup):
+        return any(k == 'ext' and c in ('tuple', 'list') for k, c in names)
     return None
 
 
